@@ -108,6 +108,27 @@ def check(run, prog, tier):
     uns = [e for e in effs if e.kind == "notify" and e.what == "unsubscribed"]
     run.ob("H1", f"{st.qual}:drops-subscriptions", bool(rem) and bool(uns) and all(e.wave == 0 for e in uns), loc(st),
            f"stopping the service removes its subscriptions ({len(rem)} site(s)) and reports them unsubscribed in the same step ({len(uns)} site(s))")
+    # ... on EVERY path on which the instance actually stops (its task is cancelled / the running state cleared), not only
+    # on some: a subscription surviving a stop is 'live' while the service is not offered
+    stop_all_q = cx.m(TS, "stop_all").qual
+    bulk = {stop_all_q, cx.m(TS, "stop_all_for_address").qual, cx.m(TS, "stop_all_matching").qual}
+    worst = None
+    n_stop = 0
+    for p in e0.paths(st, recv=INST):
+        run.paths += 1
+        if not p.returns():
+            continue
+        stops = any(e.kind == "store" and e.target == ("attr", ("self", INST), "_task") and e.value == const(None) for e in p.events)
+        if not stops:
+            continue
+        n_stop += 1
+        drops = [e for e in p.events if e.kind == "call" and any(f.qual in bulk for f in e.targets) and e.recv == ("attr", ("self", INST), "subscriptions")]
+        if not any(f.qual == stop_all_q for e in drops for f in e.targets) and worst is None:
+            worst = p.describe()[:90]
+    run.ob("H1", f"{st.qual}:every-stopping-path-drops-subscriptions", worst is None and n_stop >= 1, loc(st),
+           f"{n_stop} path(s) clear the running state; each of them removes all subscriptions (subscriptions.stop_all())" if worst is None else
+           f"the path [{worst}] stops the instance but keeps its subscriptions: they stay recorded (and their TTL timers armed) while the service is not "
+           "offered, a later Subscribe from the same client is taken for a refresh and never reported")
     cl = cx.m(ANN, "connection_lost")
     effs = cx.effects(cl.qual, ANN)
     uns = [e for e in effs if e.kind == "notify" and e.what == "unsubscribed"]
